@@ -68,6 +68,35 @@ theorem store_warmup_false_omits_exactly_warmup (rs : List (SRec γ)) :
     have : rs.filter (fun _ => true) = rs := List.filter_eq_self.mpr (by simp)
     simp [this]
 
+/-! ### the in-memory backends agree with each other -/
+
+/-- **C14 / backends agree (HashMap vs Arrow)**: for every history that records its warmup draws
+    before its sampling draws, the HashMap vector of a variable is the concatenation of the
+    non-null Arrow rows (store_warmup = true), and with store_warmup = false Arrow holds exactly
+    the sampling part of it. -/
+theorem hashmap_eq_arrow_flatten (w s : List (SRec γ)) (hw : ∀ r ∈ w, r.tuning = true)
+    (hs : ∀ r ∈ s, r.tuning = false) :
+    ((w ++ s).foldl HmSt.record HmSt.init).finalize =
+      (((w ++ s).foldl (ArSt.record true) ArSt.init).finalize).flatMap (fun v => v.getD []) ∧
+    (((w ++ s).foldl (ArSt.record false) ArSt.init).finalize).flatMap (fun v => v.getD []) = specSamp (w ++ s) := by
+  have fw : (w ++ s).filter (·.tuning) = w := by
+    rw [List.filter_append, List.filter_eq_self.mpr (by simpa using hw),
+      List.filter_eq_nil_iff.mpr (by intro r hr; simp [hs r hr])]; simp
+  have fs : (w ++ s).filter (fun r => !r.tuning) = s := by
+    rw [List.filter_append, List.filter_eq_nil_iff.mpr (by intro r hr; simp [hw r hr]),
+      List.filter_eq_self.mpr (by intro r hr; simp [hs r hr])]; simp
+  constructor
+  · rw [hashmap_roundtrip, (store_warmup_false_omits_exactly_warmup (w ++ s)).2]
+    unfold specWarm specSamp
+    rw [fw, fs, List.flatMap_map, List.flatMap_append]
+  · rw [(store_warmup_false_omits_exactly_warmup (w ++ s)).1]
+    unfold specSamp
+    rw [List.flatMap_map]
+
+/-- non-vacuity: a history with an absent (event) value in each phase -/
+example : ([⟨true, some [1]⟩, ⟨true, none⟩, ⟨false, some [2, 3]⟩, ⟨false, none⟩].foldl HmSt.record (HmSt.init (γ := ℕ))).finalize
+    = [1, 2, 3] := by decide
+
 /-! ### ndarray -/
 theorem nd_run (s : NdSt γ) (rs : List (SRec γ)) :
     (rs.foldl NdSt.record s).currentDraw = s.currentDraw + rs.length ∧
